@@ -193,6 +193,12 @@ func c10Intruder(t *rapid.T) C10Triple {
 		`BEGIN { b = true; b.k++; z = null; z.k = 1 }`,
 		`BEGIN { r = /a/; r.x = 2; r[0]++ }`,
 		`{ $.name[10] = 9; $.name[12]++ }`,
+		// values with several members that JSON cannot express: which one is reported?
+		`BEGIN { o = {a: /x/}; o.b = o; print json(o) }`,
+		`BEGIN { o = {k1: 1, k2: /x/, k3: 2}; o.k0 = o; o.k9 = [o]; print "before"; print json(o) }`,
+		`{ $.r = /x/; $.self = $; $.z = [/y/, $] }`,
+		`BEGIN { o = {}; o.z = /x/; o.a = [o]; o.m = {r: /y/}; print json([o]) }`,
+		`{ $.b = /x/; $.a = $; print json($.pluck("a", "b")) }`,
 	}).Draw(t, "intruder")
 	return C10Triple{Src: ast.BS(src), Files: []DFile{{Name: "in", Docs: []string{`{"a":1,"b":[1,2]}`}}}}
 }
